@@ -69,8 +69,8 @@ Definition lclass (l : leaf) : lcls :=
   | LWSum _ _ _ _ => CWeightedSumSampling
   | LFlatten _ _ _ => CFlattening
   | LUnflatten _ _ _ => CFlatteningInverse
-  | LProj _ _ _ | LProjM _ _ _ => CComponentProjection
-  | LProjAdj _ _ _ | LProjMAdj _ _ _ => CComponentProjectionAdjoint
+  | LProj _ _ _ | LProjM _ _ _ _ => CComponentProjection
+  | LProjAdj _ _ _ | LProjMAdj _ _ _ _ => CComponentProjectionAdjoint
   | LPtInner _ _ _ _ => CPointwiseInner
   | LPtInnerAdj _ _ _ _ => CPointwiseInnerAdjoint
   | LResize _ _ _ _ _ _ => CResizing
@@ -246,12 +246,12 @@ Definition build (c : lcls) (args : list (akey * gval)) (l : leaf) : option oexp
   | CComponentProjectionAdjoint, LProj ws pw i =>
       if is_space PDom (arg KSpace args) && is_attr AIndex (arg KIndex args)
       then Some (Leaf (LProjAdj ws pw i)) else None
-  | CComponentProjectionAdjoint, LProjM ws pw idxs =>
+  | CComponentProjectionAdjoint, LProjM ws pw idxs acc =>
       if is_space PDom (arg KSpace args) && is_attr AIndex (arg KIndex args)
-      then Some (Leaf (LProjMAdj ws pw idxs)) else None
-  | CComponentProjection, LProjMAdj ws pw idxs =>
+      then Some (Leaf (LProjMAdj ws pw idxs acc)) else None
+  | CComponentProjection, LProjMAdj ws pw idxs acc =>
       if is_space PRan (arg KSpace args) && is_attr AIndex (arg KIndex args)
-      then Some (Leaf (LProjM ws pw idxs)) else None
+      then Some (Leaf (LProjM ws pw idxs acc)) else None
   | CComponentProjection, LProjAdj ws pw i =>
       if is_space PRan (arg KSpace args) && is_attr AIndex (arg KIndex args)
       then Some (Leaf (LProj ws pw i)) else None
